@@ -93,6 +93,10 @@ def _case(draw, ctx):
     elif kind == "prob":
         spec = draw(S.circuit_spec(min_inputs=1, max_inputs=6, min_gates=1, max_gates=10, max_fanin=4,
                                    max_insts=draw(st.sampled_from([0, 0, 0, 1]))))
+    elif draw(st.integers(0, 4)) == 0:
+        # parity-heavy circuits over few nets: wide xor/xnor gates that share operand pairs
+        spec = draw(S.circuit_spec(min_inputs=2, max_inputs=4, min_gates=2, max_gates=6, max_fanin=5,
+                                   types=["xor", "xnor", "xor", "xnor", "and", "or", "not"], consts=False, min_fanin_nary=2))
     else:
         big = draw(st.booleans())
         spec = draw(S.circuit_spec(min_inputs=0, max_inputs=6 if big else 4, min_gates=1,
